@@ -6,7 +6,7 @@ from ..term import Terms, show, walk, is_call, alts, match, V, C, TRY, ok_payloa
 from ..guards import guards, strip_not
 from ..rules_e1 import run_e1, by_names
 from ..rules_e2 import run_e2
-from ..rules_float import run_float, run_floatdiv, run_float_exact
+from ..rules_float import run_float, run_floatdiv, run_float_exact, run_total_exact
 
 HELPERS = {"checked_add_invariant": 1, "checked_add_invariant_duration": 1, "total_invariant": None, "round_span_invariant": 1}
 
@@ -22,6 +22,7 @@ def run(ctx, rep):
     run_float(ctx, rep)
     run_floatdiv(ctx, rep)
     run_float_exact(ctx, rep)
+    run_total_exact(ctx, rep)
     roots = ["span::Span::round", "span::Span::total", "span::Span::compare", "span::Span::checked_add", "span::Span::checked_sub",
              "span::Span::to_duration", "span::Span::checked_mul", "<signed_duration::SignedDuration as core::convert::TryFrom<span::Span>>::try_from"]
     run_e1(ctx, rep, lambda E: by_names(E, roots), min_roots=6, min_sites=400)
